@@ -211,6 +211,9 @@ def cmd_check(prop_id, tier, seed, replay_case=None, repo=None, quiet=False):
         extra_env = {}
         for v in getattr(meta, "EXTRA_VARIANTS", []):
             extra_env[f"VERIF_BUILD_{v.upper()}"] = B.build(v, repo)
+        # per-property environment for the workers (e.g. C09: PYTHONMALLOC=malloc so that ASan also sees the small
+        # blocks the extension module takes from CPython's own allocator)
+        extra_env.update(getattr(meta, "ENV", {}))
         if getattr(meta, "SHIM", False):
             sd = B.build("shim")
             extra_env["LD_PRELOAD"] = B.asan_runtime() + ":" + os.path.join(sd, "libtskfail.so")
